@@ -83,6 +83,9 @@ def cases(tier, seed):
         (sl, ('m', (False, True, True))), (('s', None, None, -1),), (sl, ('s', 2, 0, -1), sl), (('a', (-2, 1)), ('s', 0, 2, None), 'E'),
         (sl, 'E', A), (sl, 'E', ('a', (1, 1))), ('E', A, sl), ('E', ('a', (0, 0, 1)), sl), (sl, A, 'E'), (sl, sl, 'E', ('a', (1, 1, 0))), (0, 'E', ('a', (1, 1))),
         ('E', ('a', (2, 2, 0)), sl), (sl, 'E', ('a', ((1, 1), (0, 1)))),
+        (('m', (True, False)), ('a', (1, 1))), (('m', (True, True)), ('a', (1, 1))), (('m', (False, True)), ('a', (2, 0, 2)), 0),
+        (sl, ('m', (True, False, True)), ('a', (1, 1))), (('a', (1, 1)), ('m', (True, False, False))), (('m', (True, True)), sl, ('a', (0, 1))),
+        (('m', (True, False)), ('a', ((1,), (1,)))),
     ]
     for c in combos:
         out.append(('idx', ((2, 3, 2),), c))
